@@ -158,8 +158,15 @@ def spec_mutation_audit(v):
 
 
 def run(v):
+    apa = None
     if v.tier == "thorough":
         spec_mutation_audit(v)
+        # unbounded: NoStale /\ EagerFilled inductive over every public call (Apalache), in the background while the replays run
+        from concurrent.futures import ThreadPoolExecutor
+        from . import apalache
+        pool = ThreadPoolExecutor(1)
+        apa = pool.submit(apalache.inductive, v, "C01-scene", "Scene", "MC_Scene",
+                          ("beam-change-does-not-clear-att", '[cascade |-> {}, ops |-> {}, clear |-> {"bm", "att"}]', '[cascade |-> {}, ops |-> {}, clear |-> {"bm"}]'))
     bad = sensitivity_audit()
     if bad:
         raise core.MachineryError(f"sensitivity audit: changing {bad} is invisible to every observation; staleness of it could not be detected")
@@ -194,6 +201,8 @@ def run(v):
     from . import c01_trace, c01_notify
     c01_trace.run(v)
     c01_notify.run_part(v)
+    if apa is not None:
+        v.notes["inductive_invariant_any_history_length"] = apa.result()
     v.notes["edges_per_last_action"] = ops
     v.notes["histories_with_violation"] = len(failed)
     v.assumptions += ["mock atomic data with constant pairwise-distinct rates; two concrete values per parameter (mbt/scene.py); sensitivity audit passed for every parameter",
